@@ -306,13 +306,17 @@ def storage_map(ck, prog):
                              expected="cells are addressed through get/set/..._element_mut; values[] is only walked over 0..len or used as a whole",
                              found=f"own index arithmetic on the buffer: values[{render(term)[:80]}]")
     # the raw buffer must not leave the type as a 'flattened' sequence
-    for b in sorted(dm, key=lambda b: b.path):
+    conv = [b for b in prog.bodies.values() if b.kind != "Closure" and (b.impl_trait or "").startswith("std::convert::From")
+            and b.name == "from" and b.arg_count == 1 and "dense_matrix::DenseMatrix<T>" in b.local_ty(1)
+            and (b.loc and b.loc[0] == "src/linalg/naive/dense_matrix.rs")]
+    for b in sorted(list(dm) + conv, key=lambda b: b.path):
         if not b.local_ty(0).startswith("std::vec::Vec<T"):
             continue
         res = Resolver(b)
         ret = res.local(0)
         esc = any(a[0] == "field" and a[2] == "values" and a[1][0] == "arg" for a in alts(ret))
-        inst = f"DenseMatrix::{b.name} does not hand out the storage buffer as a flattened view"
+        inst = f"DenseMatrix::{b.name} does not hand out the storage buffer as a flattened view" if b not in conv else \
+            "Vec::from(DenseMatrix) does not hand out the storage buffer as a flattened view"
         if esc and b.name not in ("unique",):
             ck.violation(rule, inst, b.path, f"{b.loc[0]}:{b.loc[1]}", expected="a Vec built in logical (row-major) order through the accessors",
                          found="returns self.values (storage order) as the result")
@@ -434,3 +438,62 @@ def run(ck, prog):
     _run_pre_negcast(ck, prog)
     from sa import negcast
     negcast.run_rule(ck, prog, set(DIMENSION_FILES))
+
+
+# ------------------------------------------------------------------ dot: both operands are vectors (truth-table gate)
+_run_pre_dotvec = run
+
+
+def dot_operands_are_vectors(ck, prog):
+    """'dot ... between operands of incompatible shape [is] rejected': DenseMatrix::dot walks the two storage buffers in
+    parallel, which is the inner product only when BOTH operands are row or column vectors. Truth-table gate: for each of the
+    16 assignments of (self.nrows == 1, self.ncols == 1, other.nrows == 1, other.ncols == 1) the comparisons of a dimension
+    with the constant 1 are evaluated and their impossible edges cut; a non-panicking return must be unreachable exactly for
+    the assignments where some operand has neither dimension equal to 1. (The separate size test is left undetermined.)"""
+    from sa.e1 import BodyCtx
+    from sa import guards
+    from sa.match import dim_of
+    import itertools
+    rule, inst = "E1-guard", "dot: an operand that is not a row or column vector -> panic"
+    try:
+        b = prog.one(DM + "dot$")
+    except Exception as e:
+        ck.violation(rule, inst, "dot", "", expected="anchor exists", found=f"anchor vanished: {e}")
+        return
+    cx = BodyCtx.of(b)
+    atoms = {("rows", 1): 0, ("cols", 1): 1, ("rows", 2): 2, ("cols", 2): 3}
+    tests = []
+    for c in cx.cmps:
+        for (L, R, rel) in ((c.lhs, c.rhs, c.rel), (c.rhs, c.lhs, guards.FLIP[c.rel])):
+            d = dim_of(L)
+            if d and d[0] in ("rows", "cols") and d[1][0] == "arg" and (d[0], d[1][1]) in atoms and R == ("int", 1) and rel in ("==", "!="):
+                tests.append((c, atoms[(d[0], d[1][1])], rel))
+    rets = [r for r in b.returns]
+    bad = []
+    for assign in itertools.product((False, True), repeat=4):
+        cut = set()
+        for c, k, rel in tests:
+            truth = assign[k] if rel == "==" else (not assign[k])
+            cut.add((c.bb, c.false_bb) if truth else (c.bb, c.true_bb))
+        reach = b.reachable_from([0], cut_edges=frozenset(cut))
+        can_return = any(r in reach for r in rets)
+        must_reject = not ((assign[0] or assign[1]) and (assign[2] or assign[3]))
+        if must_reject and can_return:
+            shape = lambda r1, c1: f"{'1' if r1 else 'm'}x{'1' if c1 else 'n'}"
+            bad.append(f"{shape(assign[0], assign[1])} . {shape(assign[2], assign[3])}")
+        if not must_reject and not can_return:
+            bad.append(f"refuses valid operands (assignment {assign})")
+    site = f"{b.loc[0]}:{b.loc[1]}"
+    if bad:
+        ck.violation(rule, inst, b.path, site, expected="a return is reachable iff each operand has a unit dimension",
+                     found=f"accepted although an operand is a proper matrix (m, n > 1): {bad[:6]} ({len(tests)} unit-dimension tests evaluated)")
+    else:
+        ck.ok(rule, inst, b.path, site, f"16 assignments of the 4 unit-dimension tests: rejected exactly when an operand is a proper matrix ({len(tests)} tests)")
+
+
+def run(ck, prog):
+    _run_pre_dotvec(ck, prog)
+    dot_operands_are_vectors(ck, prog)
+
+
+EXPLANATION += (' dot: truth table over the four unit-dimension tests - a return is reachable iff each operand is a row or column vector (found and fixed: 2x3 . 1x6 was accepted). Vec::from(DenseMatrix) is covered by the hand-out rule (found and fixed: it returned the storage buffer).')
